@@ -256,7 +256,7 @@ def _thread_fn(sched: Scheduler, tid: int, ops: List[Dict[str, Any]],
                 ws.abort_at = ws.local_step + op["abort"]
             step0 = ws.local_step
             try:
-                fp, val = kit.outcome(call, value=(kind == "V"))
+                fp, val = kit.outcome(call, value=(kind == "V"), detail=True)
             except SimAbort:
                 rec["aborted"] = ws.aborted_site
                 rec["steps"] = ws.local_step - step0
